@@ -86,6 +86,56 @@ impl H {
     }
 }
 
+/// History independence: every recorded operation is a function of its arguments and its tape, so executing it
+/// again -- after all the later operations of the run, in reverse order, and twice in a row -- must give the
+/// recorded outcome. A memo, cache or scratch buffer that survives between calls and is keyed too coarsely shows
+/// up here even when the generator never happened to produce the poisoning sequence in its forward order.
+/// The pass stops after `budget_s` seconds.
+fn history_pass(h: &mut H, prop: &str, budget_s: u64) {
+    let t0 = std::time::Instant::now();
+    let n = h.lines.len();
+    let op_of = |l: &str| -> String { l.split(' ').nth(2).unwrap_or("").to_string() };
+    let decides = |op: &str| op.contains("verify") || op.starts_with("dec.") || op == "pkfromcoords" || op == "devc";
+    let deciders: Vec<usize> = (0..n).filter(|&i| decides(&op_of(&h.lines[i]))).collect();
+    let others: Vec<usize> = (0..n).filter(|&i| !decides(&op_of(&h.lines[i])) && h.lines[i].len() < 200_000).collect();
+    let pick = |v: &Vec<usize>, cap: usize| -> Vec<usize> {
+        let stride = (v.len() + cap - 1) / cap.max(1);
+        v.iter().cloned().step_by(stride.max(1)).collect()
+    };
+    let mut sel = pick(&deciders, 700);
+    sel.extend(pick(&others, 200));
+    sel.sort();
+    sel.reverse();
+    let mut checked = 0u64;
+    for i in sel {
+        if t0.elapsed().as_secs() >= budget_s {
+            break;
+        }
+        let line = h.lines[i].clone();
+        let want = line.split(" => ").nth(1).unwrap_or("").to_string();
+        let id: u64 = line.split(' ').next().and_then(|x| x.parse().ok()).unwrap_or(0);
+        for pass in 0..2 {
+            let mut h2 = H { suite: h.suite, lines: vec![], fails: vec![], stats: BTreeMap::new(), next_id: id, rng: util::Rng::new(0), tier_thorough: h.tier_thorough, oracle_checks: 0 };
+            let r = std::panic::catch_unwind(std::panic::AssertUnwindSafe(|| ops::replay(&mut h2, &line)));
+            let got = match (r, h2.lines.last()) {
+                (Ok(()), Some(l)) => l.split(" => ").nth(1).unwrap_or("").to_string(),
+                _ => break, // the line cannot be rebuilt from its text (an object that has no octet form): skipped
+            };
+            checked += 1;
+            let cut = |s: &str| -> String { s.chars().take(60).collect() };
+            let same = got == want;
+            h.expect(same, &format!("{}.history_dependence", prop),
+                &format!("operation {} ({}) returned '{}' in the run and '{}' when executed again {} -- its outcome depends on earlier calls",
+                    id, op_of(&line), cut(&want), cut(&got),
+                    if pass == 0 { "after the later operations of the run" } else { "a second time in a row" }), &[id]);
+            if !same {
+                break;
+            }
+        }
+    }
+    h.stat_n("history_pass.reexecuted", checked);
+}
+
 fn main() {
     let args: Vec<String> = std::env::args().collect();
     if args.len() >= 3 && args[1] == "c07child" {
@@ -157,6 +207,7 @@ fn main() {
             } else {
                 gen::run::<zkryptium::bbsplus::ciphersuites::Bls12381Shake256>(&mut h, &prop);
             }
+            history_pass(&mut h, &prop, if tier == "thorough" { 150 } else { 20 });
             next_id = h.next_id;
             oracle_checks += h.oracle_checks;
             all_lines.append(&mut h.lines);
